@@ -358,6 +358,26 @@ fn gcd_big(c: &GcdCase, ctx: &Ctx) -> Out {
     assert!((&nua % &g).is_zero() && (&nub % &g).is_zero() && ngcd(&(&nua / &g), &(&nub / &g)).is_one());
 
     out.nontrivial(la >= 2 || lb >= 2);
+    // the trait forms of num_integer::Integer (cargo feature num-integer): gcd, lcm, extended_gcd
+    {
+        use num_integer::Integer as NI;
+        let gi = BigInt::from(g.clone());
+        match catch(|| (NI::gcd(&a, &b), NI::gcd(&ua, &ub), NI::lcm(&a, &b), NI::lcm(&ua, &ub))) {
+            Ok((g1, g2, l1, l2)) => {
+                let wl = NI::lcm(&nua, &nub);
+                out.check(i2n(&g1) == gi && u2n(&g2) == g, || format!("num_integer::Integer::gcd: got {} / {}, want {}", show_i(&i2n(&g1)), show_u(&u2n(&g2)), show_u(&g)));
+                out.check(i2n(&l1).magnitude() == &wl && u2n(&l2) == wl, || format!("num_integer::Integer::lcm: got {} / {}, want {}", show_i(&i2n(&l1)), show_u(&u2n(&l2)), show_u(&wl)));
+            }
+            Err(m) => out.fail(format!("num_integer::Integer gcd / lcm panicked: {}", normalise(&m))),
+        }
+        match catch(|| NI::extended_gcd(&a, &b)) {
+            Ok(e) => {
+                let lhs = i2n(&e.x) * &na + i2n(&e.y) * &nb;
+                out.check(i2n(&e.gcd) == gi && lhs == gi, || format!("num_integer::Integer::extended_gcd (IBig): gcd {} with x·a + y·b = {}, want {}", show_i(&i2n(&e.gcd)), show_i(&lhs), show_u(&g)));
+            }
+            Err(m) => out.fail(format!("num_integer::Integer::extended_gcd (IBig) panicked: {}", normalise(&m))),
+        }
+    }
     out.label(match (la.min(lb), la.max(lb)) {
         (0, _) => "path:one operand zero",
         (_, 0..=2) => "path:dword × dword",
@@ -811,6 +831,33 @@ fn roots(c: &RootCase, ctx: &Ctx) -> Out {
     if n >= 3 {
         if let Some(l) = perfect_label(&x, n) {
             out.label(l);
+        }
+    }
+
+    // ---------------- the trait forms of num_integer::Roots (cargo feature num-integer)
+    if n >= 1 && (n as u64) <= u32::MAX as u64 {
+        use num_integer::Roots as NR;
+        match catch(|| (NR::sqrt(&ux), NR::cbrt(&ux), NR::nth_root(&ux, n as u32))) {
+            Ok((r2, r3, rn)) => {
+                for (k, r) in [(2, &r2), (3, &r3), (n, &rn)] {
+                    if let Some(e) = root_wrong(&x, k, &u2n(r)) {
+                        out.fail(format!("num_integer::Roots for UBig, order {k}: {e}"));
+                    }
+                }
+            }
+            Err(m) => out.fail(format!("num_integer::Roots for UBig: unexpected panic {}", normalise(&m))),
+        }
+        if !c.x.neg {
+            match catch(|| (NR::sqrt(&ix), NR::cbrt(&ix), NR::nth_root(&ix, n as u32))) {
+                Ok((r2, r3, rn)) => {
+                    for (k, r) in [(2, &r2), (3, &r3), (n, &rn)] {
+                        if let Some(e) = root_wrong(&x, k, i2n(r).magnitude()) {
+                            out.fail(format!("num_integer::Roots for IBig, order {k}: {e}"));
+                        }
+                    }
+                }
+                Err(m) => out.fail(format!("num_integer::Roots for IBig: unexpected panic {}", normalise(&m))),
+            }
         }
     }
 
